@@ -152,18 +152,6 @@ Proof.
   intros Hi Hj. unfold blt. rewrite suffix_cmp_same by assumption. unfold N.ltb. reflexivity.
 Qed.
 
-(* is a a prefix of b *)
-Fixpoint prefixb (a b : bytes) : bool :=
-  match a, b with
-  | [], _ => true
-  | _ :: _, [] => false
-  | x :: a', y :: b' => N.eqb x y && prefixb a' b'
-  end.
-
-(* two user keys are independent when neither, followed by the separator, starts the other *)
-Definition indep2 (k k' : bytes) : Prop :=
-  prefixb (k ++ [ionsep]) k' = false /\ prefixb (k' ++ [ionsep]) k = false.
-
 (* the order of their suffixed keys does not depend on the ordinals *)
 Lemma tag_cmp_gen (s : N) k k' x y : k <> k' ->
   prefixb (k ++ [s]) k' = false -> prefixb (k' ++ [s]) k = false ->
